@@ -17,6 +17,7 @@ import (
 	"ariga.io/atlas/sql/sqlite"
 	"ariga.io/atlas/sql/sqltool"
 
+	"github.com/hashicorp/hcl/v2/hclparse"
 	"github.com/zclconf/go-cty/cty"
 
 	"verif/universe/dfu"
@@ -251,6 +252,48 @@ func opEvalMarshal(d *dfu.Dialect) Op {
 	}}
 }
 
+// opEvalMultiFile: a schema split over several HCL files (two of them share a base name in different
+// directories, as with several --to / src directories) is evaluated through the file parser; the order
+// of tables in the result - and with it the marshalled HCL and the CREATE order of a plan - must not
+// depend on how the parser's file map is iterated.
+func opEvalMultiFile() Op {
+	return Op{"eval_multi_file/sqlite", func() (string, error) {
+		files := map[string]string{
+			"schema/main.hcl":           "schema \"main\" {}\n",
+			"schema/core/tables.hcl":    "table \"users\" {\n  schema = schema.main\n  column \"id\" {\n    type = integer\n  }\n}\ntable \"accounts\" {\n  schema = schema.main\n  column \"id\" {\n    type = integer\n  }\n}\n",
+			"schema/billing/tables.hcl": "table \"invoices\" {\n  schema = schema.main\n  column \"id\" {\n    type = integer\n  }\n}\n",
+			"schema/z_last.hcl":         "table \"zed\" {\n  schema = schema.main\n  column \"id\" {\n    type = integer\n  }\n}\n",
+			"other/billing/tables.hcl":  "table \"refunds\" {\n  schema = schema.main\n  column \"id\" {\n    type = integer\n  }\n}\n",
+		}
+		names := make([]string, 0, len(files))
+		for n := range files {
+			names = append(names, n)
+		}
+		sort.Strings(names)
+		p := hclparse.NewParser()
+		for _, n := range names {
+			if _, diags := p.ParseHCL([]byte(files[n]), n); diags.HasErrors() {
+				return "", diags
+			}
+		}
+		var r schema.Realm
+		if err := sqlite.EvalHCL.Eval(p, &r, nil); err != nil {
+			return "", err
+		}
+		var order []string
+		for _, sc := range r.Schemas {
+			for _, t := range sc.Tables {
+				order = append(order, t.Name)
+			}
+		}
+		b, err := sqlite.MarshalHCL.MarshalSpec(&r)
+		if err != nil {
+			return "", err
+		}
+		return "tables: " + strings.Join(order, ",") + "\n" + string(b), nil
+	}}
+}
+
 var formatters = []struct {
 	n string
 	f migrate.Formatter
@@ -401,7 +444,7 @@ func Ops(thorough bool) []Op {
 	for _, d := range dfu.Dialects {
 		ops = append(ops, opPlans(d, thorough), opDiffOrder(d), opMarshal(d), opEvalMarshal(d))
 	}
-	ops = append(ops, opFormat(), opChecksum(), opValidateErr(), opScopeErr())
+	ops = append(ops, opFormat(), opChecksum(), opValidateErr(), opScopeErr(), opEvalMultiFile())
 	sort.SliceStable(ops, func(i, j int) bool { return false })
 	return ops
 }
